@@ -278,6 +278,8 @@ Inductive op :=
 | OClose
 | OWrite2 (bufs : list N)     (* uv_write2 with the send handle *)
 | OCloseSend                  (* uv_close on the send handle *)
+| OWriteNomem (bufs : list N)   (* uv_write during which uv__malloc fails *)
+| OWrite2Nomem (bufs : list N)  (* uv_write2 with the send handle during which uv__malloc fails *)
 | ORun.                 (* one uv_run(UV_RUN_NOWAIT); ignored inside callbacks *)
 
 Definition check_before_write (s : st) : option Z :=
@@ -327,6 +329,33 @@ Definition api_write2 (s : st) (bufs : list N) : st :=
       ev (ERet id 0%Z) s2
   end.
 
+Definition UV_ENOMEM : Z := (-12)%Z.
+
+(* nbufs > ARRAY_SIZE(req->bufsml): the uv_buf_t array is copied to the heap *)
+Definition needs_alloc (bufs : list N) : bool := (4 <? length bufs)%nat.
+
+(* uv_write2 when uv__malloc returns NULL: after uv__check_before_write and the empty_queue
+   test, before the request is registered or anything is queued: return UV_ENOMEM.  With
+   4 buffers or fewer nothing is allocated and the call is an ordinary one. *)
+Definition api_write_nomem (s : st) (bufs : list N) : st :=
+  match check_before_write s with
+  | Some _ => api_write s bufs
+  | None =>
+      if needs_alloc bufs
+      then ev (ERet (next_id s) UV_ENOMEM) (ev (EWrite (next_id s) (sumN bufs)) (set_next_id (S (next_id s)) s))
+      else api_write s bufs
+  end.
+
+Definition api_write2_nomem (s : st) (bufs : list N) : st :=
+  match check_before_write2 s with
+  | Some _ => api_write2 s bufs
+  | None =>
+      if needs_alloc bufs
+      then ev (ERet (next_id s) UV_ENOMEM)
+              (ev (EWrite2 (next_id s)) (ev (EWrite (next_id s) (sumN bufs)) (set_next_id (S (next_id s)) s)))
+      else api_write2 s bufs
+  end.
+
 (* uv_try_write *)
 Definition api_try (s : st) (bufs : list N) : st :=
   let id := next_id s in
@@ -365,6 +394,8 @@ Definition api (s : st) (o : op) : st :=
   | OClose => api_close s
   | OWrite2 bufs => api_write2 s bufs
   | OCloseSend => set_sh_open false s
+  | OWriteNomem bufs => api_write_nomem s bufs
+  | OWrite2Nomem bufs => api_write2_nomem s bufs
   | ORun => s
   end.
 
